@@ -576,6 +576,11 @@ impl World {
                 let _ = self.hout.send(HandlerOut::UnrecognizedFrame(discv5::socket::UnrecognizedFrame { src_address: SocketAddr::new(IpAddr::V4(Ipv4Addr::LOCALHOST), 1), packet: vec![] })).await;
             }
             "advance" => tokio::time::sleep(Duration::from_millis(util::i(op, "ms") as u64)).await,
+            // virtual time for the std::time users of the service: query and per-peer timeouts, vote lifetimes, pending table slots
+            "age" => {
+                let ok = self.d.verif_age(Duration::from_millis(util::i(op, "ms") as u64)).await;
+                info.insert("ok".into(), json!(ok));
+            }
             other => panic!("svc: unknown op {other}"),
         }
         Value::Object(info)
